@@ -418,6 +418,9 @@ impl Property for C09 {
     fn level(&self) -> &'static str {
         "fault_enumeration"
     }
+    fn regimes(&self) -> &'static str {
+        crate::gen::REGIMES_CATALOGUE
+    }
     fn rule(&self) -> String {
         "proptest generates scenarios = (catalogue model, data, weights, 0..3 caller updates, then fit_with_statistics (single rhs) or fit (multiple rhs), with generated optimizer settings). A dry run counts and labels the T model calls (set_params / eval / each partial derivative, by step); then a failure is injected at EVERY call index k in [0,T), transient and persistent, and for set_params calls in both failure styles (keep old parameters / store then fail) — exhaustive over fault positions of the scenario. Builder-made scenarios use the models' real failure modes: wrong-length parameter vectors through the problem and closures returning a wrong length from the k-th call on, for every k. Oracle after every top-level step: failed parameter application or evaluation => residuals, coefficients and Jacobian all absent; failed derivative => that jacobian() is None; present values satisfy the C01/C02 oracles for the reported parameters; a failure seen by the optimizer or an absent state at its start => Err with termination User; a failure in the optimizer's final re-application => absent state and no statistics; a failure in the statistics phase => Err; never a panic. Non-trivial: scenarios whose injected faults hit >= 4 distinct (step, call kind, mode) triples".into()
     }
